@@ -49,6 +49,7 @@ __all__ = [
     "TreeDict",
     "TreeExtension",
     "UnmergedEntries",
+    "UnsupportedIndexExtension",
     "UnsupportedIndexFormat",
     "UntrackedExtension",
     "blob_from_path_and_mode",
@@ -896,6 +897,19 @@ class UnsupportedIndexFormat(Exception):
         self.index_format_version = version
 
 
+class UnsupportedIndexExtension(Exception):
+    """An index extension that must be understood to read the index was encountered."""
+
+    def __init__(self, signature: bytes) -> None:
+        """Initialize UnsupportedIndexExtension exception.
+
+        Args:
+            signature: Signature of the extension that is not understood
+        """
+        super().__init__(f"index uses {signature!r} extension, which is not understood")
+        self.signature = signature
+
+
 def read_index_header(f: BinaryIO) -> tuple[int, int]:
     """Read an index header from a file.
 
@@ -980,11 +994,11 @@ def read_index_dict_with_version(
         if len(signature) < 4:
             break
 
-        # Check if it's a valid extension signature (4 uppercase letters)
-        if not all(65 <= b <= 90 for b in signature):
-            # Not an extension, seek back
-            f.seek(-4, 1)
-            break
+        # Check if it's a valid extension signature: 4 uppercase letters for an
+        # optional extension; the only mandatory (lowercase) extension that is
+        # understood is the sparse directory marker
+        if signature != SDIR_EXTENSION and not all(65 <= b <= 90 for b in signature):
+            raise UnsupportedIndexExtension(signature)
 
         # Read extension size
         size_data = f.read(4)
@@ -1209,9 +1223,10 @@ class Index:
             # Filter out extensions with no meaningful data
             meaningful_extensions = []
             for ext in self._extensions:
-                # Skip extensions that have empty data
+                # Skip extensions that have empty data, except for the sparse
+                # directory marker whose presence is the information
                 ext_data = ext.to_bytes()
-                if ext_data:
+                if ext_data or isinstance(ext, SparseDirExtension):
                     meaningful_extensions.append(ext)
 
             if self._skip_hash:
